@@ -51,6 +51,9 @@ def run(ck):
         cases.append({"k": "rule", "id": ck.new_id(), "rule": rule_text(det, extra=extra), "docs": [D(d) for d in docs],
                       "sw": ALL_SW, "validate": True, "_docs": docs})
         ck.count("family:" + fam)
+    for c in rulebase.corpus_cases(ck, ALL_SW, validate=True):
+        c["_docs"] = []
+        cases.append(c)
     for c in cases:
         c["otrees"] = True
     wit = rulebase.witness_cases(ck, "C03", repeat=1)
